@@ -9,7 +9,8 @@ GROUPS = {
     'temporal': [('date',), ('datetime',), ('time',), ('timedelta',)],
     'constrained': [('rule', I, {'ge': 0, 'lt': 10}), ('rule', S, {'max_length': 3}), ('rule', S, {'regex': '[a-z]+'}),
                     ('rule', I, {'multiple_of': 3}), ('rule', ('decimal',), {'max_digits': 4, 'decimal_places': 2}),
-                    ('rule', ('float',), {'gt': 0.0}), ('rule', ('list', I), {'unique_items': True, 'max_length': 2}),
+                    ('rule', ('float',), {'gt': 0.0}), ('rule', ('float',), {'ge': 0.0, 'le': 1.0}),
+                    ('list', ('rule', ('float',), {'ge': 0.0})), ('rule', ('list', I), {'unique_items': True, 'max_length': 2}),
                     ('rule', S, {'enum': ['a', 'b']}), ('rule', I, {'const': 1}), ('rule', ('dict', S, I), {'min_length': 1})],
     'generic': [('list', I), ('set', I), ('frozenset', I), ('tuple', [I, S]), ('vtuple', I), ('dict', S, I)],
     'nested': [('dict', I, ('list', I)), ('list', ('list', I)), ('list', ('opt', I)), ('list', ('dc', 'TInner')),
